@@ -59,7 +59,17 @@ fn drive(spec: &ExchangeSpec, s: &mut Sched, follow: Option<RedirectAuthHeaders>
             st.class("via_redirect");
             let has_location = spec.resp.head.fields.iter().any(|f| f.lname() == "location");
             if let Some(policy) = follow {
-                match r.as_new_flow(policy) {
+                let first = r.as_new_flow(policy);
+                // asking again is permitted as long as no flow was handed out: the answer must be the same (other policy)
+                if !matches!(first, Ok(Some(_))) {
+                    let other = if policy == RedirectAuthHeaders::Never { RedirectAuthHeaders::SameHost } else { RedirectAuthHeaders::Never };
+                    let again = r.as_new_flow(other);
+                    match (&first, &again) {
+                        (Err(_), Err(_)) | (Ok(None), Ok(None)) => st.class("as_new_flow_asked_twice"),
+                        _ => return Err(format!("as_new_flow answered {} and then {} when asked again", if first.is_err() { "Err" } else { "None" }, match &again { Err(_) => "Err", Ok(None) => "None", Ok(Some(_)) => "a flow" })),
+                    }
+                }
+                match first {
                     Err(e) => {
                         if has_location {
                             return Err(format!("as_new_flow failed although the response has a Location: {:?}", e));
@@ -275,7 +285,7 @@ true (premature attempts yield None and the query was false); the successor stat
 non-trivial = history traversing >= 4 states including Await100 or Redirect, or ending in a refused premature attempt; distinct by \
 decoded-choice digest.",
     assumptions: &[
-        "try_read_100 is not called again once can_keep_await_100() is false; as_new_flow is not called again after Some",
+        "try_read_100 is not called again once can_keep_await_100() is false; as_new_flow is not called again after Some (after None or Err it is, with the other policy: same answer)",
         "following a redirect of a request that carried its own Transfer-Encoding header is not driven further (DESIGN 5.3)",
     ],
     exec: exec_random,
